@@ -28,7 +28,7 @@ fn meta() -> Meta {
     Meta {
         id: "C17",
         level: "exploration",
-        rule: "(a) every specification with <= 3 module names from {a, a::b, a::bc, ab, B (upper case: module names are case-sensitive), error, info} x 6 filters x optional default, built by LogSpecBuilder and by parse, round-tripped through Display, TOML and (<=1 name) the specfile; (b) every string of <= L tokens over {a, a::b, info, OFF, Warn, 5, bogus, =, ',', /, ' ', x(, e-acute, tab} plus single special code points in three contexts, against a reference parser; distinct_nontrivial = distinct inputs that are either malformed or contain at least two well-formed parts; round trips also with text filters (whatever Display produces parses back); case-mapping look-alikes of level words among the special inputs",
+        rule: "(a) every specification with <= 3 module names from {a, a::b, a::bc, a-b (a dash is part of the name, not an underscore), B (upper case: module names are case-sensitive), error, info} x 6 filters x optional default, built by LogSpecBuilder and by parse, round-tripped through Display, TOML and (<=1 name) the specfile; (b) every string of <= L tokens over {a, a::b, info, OFF, Warn, 5, bogus, =, ',', /, ' ', x(, e-acute, tab} plus single special code points in three contexts, against a reference parser; distinct_nontrivial = distinct inputs that are either malformed or contain at least two well-formed parts; round trips also with text filters (whatever Display produces parses back); case-mapping look-alikes of level words among the special inputs",
         assumptions: vec![
             "inputs with an empty module name or naming a module/default twice are only checked for no-panic and Ok/Err stability (outside the quantifier)".into(),
             "regex validity is decided by the regex crate".into(),
@@ -36,8 +36,8 @@ fn meta() -> Meta {
     }
 }
 
-const NAMES: [&str; 7] = ["a", "a::b", "a::bc", "ab", "B", "error", "info"];
-const TARGETS: [&str; 12] = ["a", "a::b", "a::b::c", "a::bcd", "ab", "abc", "b", "B", "c", "error", "info", ""];
+const NAMES: [&str; 7] = ["a", "a::b", "a::bc", "a-b", "B", "error", "info"];
+const TARGETS: [&str; 14] = ["a", "a::b", "a::b::c", "a::bcd", "ab", "abc", "a-b", "a_b", "b", "B", "c", "error", "info", ""];
 const TOKENS: [&str; 14] = ["a", "a::b", "info", "OFF", "Warn", "5", "bogus", "=", ",", "/", " ", "x(", "é", "\t"];
 
 fn name_sets() -> Vec<Vec<usize>> {
